@@ -326,17 +326,90 @@ class Package:
         return self.modules[name]
 
     def unit(self, short: str) -> Unit:
-        """'itertools.Tee.aclose' -> Unit; a vanished anchor is an analysis error."""
+        """'itertools.Tee.aclose' -> Unit; a vanished anchor is an analysis error.  Private
+        helpers that were merely renamed are found again structurally (ANCHOR_FALLBACKS):
+        e.g. 'builtins._min_max' is "the library coroutine that builtins.max awaits"."""
         mod, _, qual = short.partition(".")
         m = self.module(mod)
         if qual not in m.units:
+            alt = self._fallback(short)
+            if alt is not None:
+                return alt
             raise AnalysisError(f"anchored function {short} is missing")
         return m.units[qual]
 
     def has_unit(self, short: str) -> bool:
         mod, _, qual = short.partition(".")
         name = f"{PKG}.{mod}"
-        return name in self.modules and qual in self.modules[name].units
+        if name in self.modules and qual in self.modules[name].units:
+            return True
+        return self._fallback(short) is not None
+
+    # (anchor, public unit that uses it, kind of the helper, selector among several candidates)
+    ANCHOR_FALLBACKS = {
+        "builtins._min_max": ("builtins.max", "coroutine", 0),
+        "builtins._zip_inner": ("builtins.zip", "asyncgen", 0),
+        "builtins._zip_inner_strict": ("builtins.zip", "asyncgen", 1),
+        "builtins.acallable_iterator": ("builtins.iter", "asyncgen", 0),
+        "heapq._largest": ("heapq.nlargest", "coroutine", 0),
+        "itertools.tee_peer": ("itertools.Tee.__init__", "asyncgen", 0),
+        "itertools._repeat": ("itertools.zip_longest", "asyncgen", 0),
+    }
+
+    def _fallback(self, short: str) -> Optional[Unit]:
+        spec = self.ANCHOR_FALLBACKS.get(short)
+        if spec is None:
+            return None
+        user, kind, index = spec
+        umod, _, uqual = user.partition(".")
+        m = self.modules.get(f"{PKG}.{umod}")
+        if m is None or uqual not in m.units:
+            return None
+        found: List[Unit] = []
+        for call in ast.walk(m.units[uqual].node):
+            if isinstance(call, ast.Call) and isinstance(call.func, ast.Name):
+                res = self.resolve_global(m, call.func.id)
+                if res.kind == "lib":
+                    u = self.lib_unit(res.qual)
+                    if u is not None and u.kind == kind and u.module is m and u.parent is None and u.cls is None \
+                            and u.qualname.startswith("_") or (u is not None and u.kind == kind and u.module is m
+                                                                and not self._is_public(u)):
+                        if u not in found:
+                            found.append(u)
+        found.sort(key=lambda u: u.lineno)
+        if index < len(found):
+            return found[index]
+        return None
+
+    def canonical(self, u: Unit) -> str:
+        """Canonical anchor name of a unit: for a renamed private helper that is located
+        structurally this is the name the rule tables use; otherwise ``u.short``."""
+        cache = self.__dict__.setdefault("_canon", {})
+        if not cache:
+            for anchor in self.ANCHOR_FALLBACKS:
+                mod, _, qual = anchor.partition(".")
+                m = self.modules.get(f"{PKG}.{mod}")
+                if m is not None and qual in m.units:
+                    continue
+                alt = self._fallback(anchor)
+                if alt is not None:
+                    cache[id(alt.node)] = anchor
+            cache["#"] = True
+        top = u
+        suffix = ""
+        while top.parent is not None:
+            suffix = "." + top.qualname.rsplit(".", 1)[-1] + suffix
+            top = top.parent
+        if id(top.node) in cache:
+            return cache[id(top.node)] + suffix
+        return u.short
+
+    def _is_public(self, u: Unit) -> bool:
+        try:
+            names = self.public_names()
+        except AnalysisError:
+            return False
+        return u.qualname in names
 
     def cls(self, short: str) -> ClassInfo:
         mod, _, name = short.partition(".")
